@@ -266,6 +266,18 @@ func (r *Run) Expired() bool {
 	return !r.deadline.IsZero() && time.Now().After(r.deadline)
 }
 
+// shareLeft reports whether configuration i of n may still start extra
+// (beyond-the-claim) work: the budget is divided evenly, configuration i may
+// use time up to the end of its own share.
+func (r *Run) shareLeft(i, n int) bool {
+	if r.deadline.IsZero() || n <= 0 {
+		return false
+	}
+	total := r.deadline.Sub(r.start)
+	limit := r.start.Add(total * time.Duration(i+1) / time.Duration(n))
+	return time.Now().Before(limit.Add(-total / time.Duration(4*n)))
+}
+
 // DeadlineUnix returns the soft deadline as unix seconds (0 = none).
 func (r *Run) DeadlineUnix() int64 {
 	if r.deadline.IsZero() {
